@@ -92,7 +92,7 @@ func (v *Vue) renderNodesWithContext(ctx VueContext, w io.Writer, nodes []*html.
 
 	// Identify v-once elements on this render's private copy (never on the
 	// shared, cached DOM), for every entry point: file, fragment and string.
-	assignSeenAttrs("@"+ctx.FromFilename, nodeCopy)
+	assignSeenAttrs(oncePagePrefix+ctx.FromFilename, nodeCopy)
 
 	if err := v.preProcessNodes(ctx, nodeCopy); err != nil {
 		return err
@@ -233,6 +233,14 @@ func (v *Vue) loadCachedWithFrontMatter(filename string) (map[string]any, []*htm
 
 	return frontMatter, dom, nil
 }
+
+// Namespaces of v-once IDs. A component's elements are identified by the component's file
+// name; the top-level template of a render and the page's named slots handed to a layout
+// get prefixes that no file name can start with, so the three kinds never collide.
+const (
+	oncePagePrefix = "\x00page:"
+	onceSlotPrefix = "\x00slots:"
+)
 
 // assignSeenAttrs gives every v-once element of a parsed template an ID that
 // identifies the element within its template: the template's name plus the
